@@ -992,3 +992,16 @@ add("C19", "regex-helper-public-and-normalising", RT,
      ("enumerate(original_lines):\n            changed_line = self._apply_regex(line)", "enumerate(original_lines):\n            changed_line = self.apply_regex(line)"),
      ("changed_line = self._apply_regex(line)", "changed_line = self.apply_regex(line)")],
     "fire", "R-NO-MATCH-IDENTITY", "apply_regex")
+SG = "codemodder/semgrep.py"
+add("C12", "semgrep-uri-percent-decoded", SG,
+    [("        file = Path(artifact_location[\"uri\"])", "        file = Path(unquote(artifact_location[\"uri\"]))"),
+     ("from pathlib import Path\n", "from pathlib import Path\nfrom urllib.parse import unquote\n")],
+    "fire", "R-LOCATION-FILE-VERBATIM", "SemgrepLocation.from_sarif")
+add("C18", "semgrep-uri-scheme-stripped", SG,
+    [("        file = Path(artifact_location[\"uri\"])", "        file = Path(artifact_location[\"uri\"].removeprefix(\"file://\"))")],
+    "fire", "R-LOCATION-FILE-VERBATIM", "SemgrepLocation.from_sarif")
+add("C12", "benign-uri-through-single-return-helper", SG,
+    [("        file = Path(artifact_location[\"uri\"])", "        file = cls._artifact_path(artifact_location)"),
+     ("    @classmethod\n    def from_sarif(cls, sarif_location) -> Self:\n        artifact_location = sarif_location[\"physicalLocation\"][\"artifactLocation\"]\n        file = ",
+      "    @staticmethod\n    def _artifact_path(artifact_location) -> Path:\n        return Path(artifact_location[\"uri\"])\n\n    @classmethod\n    def from_sarif(cls, sarif_location) -> Self:\n        artifact_location = sarif_location[\"physicalLocation\"][\"artifactLocation\"]\n        file = ")],
+    "silent")
